@@ -86,33 +86,35 @@ var floors = map[string]int{
 	"refused-in-order-lock-owner-already-on-file-40":      3,
 	"refused-in-order-lock-seqid-replayed-in-new-lock-40": 1,
 	"diff-content-40":                                     30,
-	"seqid-wrap-40":                                       15,
-	"replay-at-seqid-wrap-40":                             15,
-	"misordered-unconfirmed-owner-40":                     20,
-	"replay-40-OPEN_ERR":                                  10,
-	"replay-40-OPEN_PREVIOUS":                             4,
-	"replay-40-OPEN_DOWNGRADE_ERR":                        5,
-	"slot-table-bad-session-41":                           6,
-	"slot-table-bad-slot-41":                              6,
-	"slot-table-too-many-ops-41":                          6,
-	"slot-table-no-sequence-41":                           6,
-	"slot-table-create-session-not-only-op-41":            6,
-	"slot-table-destroy-session-not-only-op-41":           6,
-	"slot-table-exchange-id-not-only-op-41":               6,
-	"slot-table-destroy-clientid-busy-41":                 6,
-	"slot-table-destroy-clientid-not-only-op-41":          5,
-	"slot-table-create-session-stale-clientid-41":         6,
-	"exchange-id-again-41":                                6,
-	"destroy-session-standalone-41":                       10,
-	"destroy-session-from-other-session-41":               10,
-	"destroy-session-from-own-session-41":                 10,
-	"destroy-session-busy-slot-41":                        20,
-	"request-on-destroyed-session-41":                     30,
-	"replay-41-FREE_STATEID":                              4,
-	"replay-41-SEQUENCE_TWICE":                            10,
-	"replay-41-OPEN_PREVIOUS":                             10,
-	"replay-41-DESTROY_SESSION":                           8,
-	"replay-41-CLOSE_BAD_STATEID":                         4,
+	"false-retry-answered-with-originals-cached-reply-40": 30,
+	"false-retry-answered-with-originals-cached-reply-41": 10,
+	"seqid-wrap-40":                               15,
+	"replay-at-seqid-wrap-40":                     15,
+	"misordered-unconfirmed-owner-40":             20,
+	"replay-40-OPEN_ERR":                          10,
+	"replay-40-OPEN_PREVIOUS":                     4,
+	"replay-40-OPEN_DOWNGRADE_ERR":                5,
+	"slot-table-bad-session-41":                   6,
+	"slot-table-bad-slot-41":                      6,
+	"slot-table-too-many-ops-41":                  6,
+	"slot-table-no-sequence-41":                   6,
+	"slot-table-create-session-not-only-op-41":    6,
+	"slot-table-destroy-session-not-only-op-41":   6,
+	"slot-table-exchange-id-not-only-op-41":       6,
+	"slot-table-destroy-clientid-busy-41":         6,
+	"slot-table-destroy-clientid-not-only-op-41":  5,
+	"slot-table-create-session-stale-clientid-41": 6,
+	"exchange-id-again-41":                        6,
+	"destroy-session-standalone-41":               10,
+	"destroy-session-from-other-session-41":       10,
+	"destroy-session-from-own-session-41":         10,
+	"destroy-session-busy-slot-41":                20,
+	"request-on-destroyed-session-41":             30,
+	"replay-41-FREE_STATEID":                      4,
+	"replay-41-SEQUENCE_TWICE":                    10,
+	"replay-41-OPEN_PREVIOUS":                     10,
+	"replay-41-DESTROY_SESSION":                   8,
+	"replay-41-CLOSE_BAD_STATEID":                 4,
 
 	// Client restart while a request of the old incarnation / client
 	// record is still being processed.
@@ -129,7 +131,7 @@ func TestCheck(t *testing.T) {
 	r.SetRule("case i = one generated client history (even i: NFSv4.0, odd i: NFSv4.1) of 14-27 state-changing requests by 1-2 clients, 2-3 open-owners / 3-7 slots, 5 file names, drawn from PRNG(VERIF_SEED, i); after each request the wrapper picks none / retransmit now / retransmit after unrelated traffic / misordered sequence (-1, +2) / same sequence with other operation, other state ID (4.0) or other operation list (4.1), requests the session/slot machinery must refuse (unknown session, slot beyond the table, too many operations, no SEQUENCE, session operations that are not alone), or (4.0, as a step of its own) an in-order seqid with a wrong state ID / file handle / client ID / lock-owner; 4.0 owner seqids start below the 32-bit wrap in one case of five; the second session of a 4.1 client is destroyed from outside, from the other or from itself, half the time while one of its slots is busy; OPEN, WRITE, READ may instead be held at a file-system gate with 2-4 concurrent requests parked behind it (identical retransmissions; in 4.0 possibly also the owner's next in-order request); about once per case the client owner restarts (new verifier) while an OPEN of its old incarnation / client record is held at the gate: CREATE_SESSION (4.1) / SETCLIENTID_CONFIRM (4.0) is answered NFS4ERR_DELAY and is retransmitted while still delayed and after the old request finished; a case is non-trivial if it hit at least one retransmission situation; distinct = distinct sequences of (operation kind, status, retransmission mode)")
 	r.Assume("the fake directory/leaf tree stands in for the virtual file system: only calls that reach it (open, close, write, truncate, create) count as file-system side effects")
 	r.Assume("server-side open/lock state is observed through: READ (4.0) / TEST_STATEID (4.1) validity of every state ID the client was ever given, LOCKT sweeps of every file, the number of draws from the program's random number generator, and the sizes of the programs' state tables (hook VerifStateCounts / VerifOpenedFilesPoolCounts: clients, sessions, owners, open/lock records, share, lock and hold counts, busy slots); a side effect that changes none of these (e.g. a sequence number moving inside a record) is only detected by its consequences for later in-order requests")
-	r.Assume("a request that reuses the seqid (4.0) or slot and sequence ID (4.1) of the last request but is not byte-identical to it (other operation, state ID, file, name, byte range, lock-owner, share access, operation list) is not a retransmission: it may be refused with any error, must not be executed and, by the last clause of the property, must not be answered with the cached reply of the other request; RFC 7530 9.1.9 / RFC 8881 2.10.6.1.3.1 would let a server compare less")
+	r.Assume("a request that reuses the seqid (4.0) or slot and sequence ID (4.1) of the last request with the same operation type(s) but other arguments (file, name, byte range, lock-owner, share access) is a false retransmission of that request: the server may answer it with that request's cached reply (RFC 7530 9.1.9 / RFC 8881 2.10.6.1.3.1 only ask for a type / shape match; counted as false-retry-answered-with-originals-cached-reply) or with any error; it must not be executed, must not change anything, and must not get a reply that belongs to another owner or slot or an older request of the same one; requests that differ in operation type, state ID or operation list shape must be refused")
 	r.Assume("a misordered or false-retry request only has to be rejected (any error status), must not be answered with the cached reply and must leave the fingerprint unchanged; the exact error code is recorded, not demanded")
 	r.Assume("a CREATE_SESSION answered NFS4ERR_DELAY was not executed and nothing is cached for it: its retransmission must be executed (NFS4ERR_DELAY again, or a new session once the old incarnation is idle, within 3 attempts); any other reply is the reply of another sequence ID")
 	r.Assume("a 4.0 request with an in-order seqid that fails consumes the seqid (and its reply is cached and replayed) unless the error is on the list of RFC 7530 9.1.7, in which case sending it again must behave identically and the next valid request uses the same seqid; which of the two applies is taken from the status the server returns; a refusal that happens after the owner's transaction started may drop the owner's previous cached reply (the client acknowledged it)")
